@@ -26,7 +26,7 @@ NAMES = ['x', 'y', 'foo', 'l', 'O', 'I', 'a1', '_', '__x__', 'é', 'Ünï', '名
          ' ', 'x\xa0y', 'self', 'cls', 'Async', 'match', 'case', 'type', '_soft']
 LAYOUT = [' ', '  ', '    ', '        ', '\t', ' \t', '\t ', '\f', '\n', '\r\n', '\r', '\n\n',
           '\\\n', '\\\r\n', '\\\r', '\\', '\\ \n', ' \\\n  ', '\n    ', '\n  ', '\n\t', '\n ']
-ODD = ['\x0b', '\x1c', '\x1d', '\x1e', '\x1f', '\x85', '\xa0', ' ', ' ', '\x00', '　',
+ODD = ['\ud800', '\udfff', '\x0b', '\x1c', '\x1d', '\x1e', '\x1f', '\x85', '\xa0', ' ', ' ', '\x00', '　',
        '﻿', '​', '\x7f', '\x1b']
 COMMENTS = ['#', '# c', '#\n', '# comment\n', '#\f', '#\fx', '# \f\n', '#!\n', '# coding: utf-8\n',
             '#\\\n', "#'", '#"""', '#{']
@@ -322,6 +322,46 @@ def bracket_then_dedent(draw):
     return ''.join(out)
 
 
+@st.composite
+def fstring_interior(draw):
+    """Text inside (unterminated / nested) f-strings: opener + inner bits (incl. odd whitespace, quotes, comments) +
+    maybe the closing quote."""
+    inner = draw(st.lists(st.one_of(_fbit, _fbit, _odd, _odd, _layout, _name, _op, _fquote, _num,
+                                    st.sampled_from(["'", '"', "'''", '"""', '#', '\\', '\f', ' \f', '\t'])), max_size=8).map(''.join))
+    pre = draw(st.sampled_from(['', 'x = ', '(', '  ']))
+    p = draw(st.sampled_from(['f', 'F', 'rf', 'fr', 'Rf']))
+    q = draw(st.sampled_from(STRING_OPENERS))
+    close = draw(st.booleans())
+    tail = draw(st.sampled_from(['', '\n', ' y\n', ')\n', '\ny = 1\n']))
+    # an open replacement field, and whitespace of every kind directly before the closing quote
+    head = draw(st.sampled_from(['', '', '{', '{x', '{x ', '{x:', '{x!r:{']))
+    gap = draw(st.sampled_from(['', '', '\f', ' \f', '\f ', '\t', ' ', '\x0b', '\xa0', '\x1c', '\\\n']))
+    return pre + p + q + head + inner + gap + (q if close else '') + tail
+
+
+@st.composite
+def pep8_layout(draw):
+    """Top-level and nested def/class/decorator blocks separated by 0-3 blank lines and optional comment lines -
+    the shapes the blank-line rules of the style checker look at."""
+    out = []
+    for _ in range(draw(st.integers(1, 4))):
+        ind = draw(st.sampled_from(['', '', '    ']))
+        if ind and not out:
+            out.append('class K:\n')
+        for _ in range(draw(st.integers(0, 3))):
+            out.append('\n')
+        for _ in range(draw(st.integers(0, 2))):
+            out.append(ind + draw(st.sampled_from(['# comment', '#comment', '## x', '#: E302', '#!x'])) + '\n')
+        for _ in range(draw(st.integers(0, 1))):
+            out.append(draw(st.sampled_from(['\n', ''])))
+        if draw(st.integers(0, 3)) == 0:
+            out.append(ind + '@dec\n')
+        out.append(ind + draw(st.sampled_from(['def f():', 'class C:', 'async def g():', 'def h(a, b=1):', 'x = 1', 'import os'])) + '\n')
+        if out[-1].rstrip().endswith(':'):
+            out.append(ind + '    ' + draw(st.sampled_from(['pass', 'return 1', 'x = 1  # c', '"""doc"""'])) + '\n')
+    return ''.join(out)
+
+
 def version():
     return st.sampled_from(VERSIONS)
 
@@ -339,6 +379,8 @@ def adversarial_text(max_frags=25, corpus_kinds=('repo',), weights=None, nest_de
         st.builds(lambda a, b, c: a + b + c, soup(6, weights), nested(12).map(lambda t: t[0]), soup(6, weights)),
         derived_text(),
         bracket_then_dedent(),
+        fstring_interior(),
+        pep8_layout(),
         mutated(derived_text(), max_edits=2, weights=weights),
         snippet(),
         mutated(snippet(), max_edits=2, weights=weights),
